@@ -77,3 +77,81 @@ pub mod k {
         c10_irq_entry = run(Opts { class: crate::c08::CLASS_IRQ, a_arch: true, a_mem: true, a_calls: true, a_depth: true, ..BASE });
     }
 }
+
+/// (d) transparency bracket: interrupt entry followed by a handler that consists of `RTI` brings every
+/// architectural component back and touches memory only in the two supervisor stack slots. A handler
+/// that preserves registers and the stack therefore composes to the identity on the interrupted
+/// program, at any instruction boundary (the pre-state is arbitrary). Two real steps.
+pub mod bracket {
+    use crate::kstep::*;
+    use crate::nd;
+    use crate::spec::isa::*;
+
+    pub fn body() {
+        let cfg = Cfg { strict: Some(false), real_traps: None, ignore_priv: None, debug_frames: false, alloca: 0, interrupts: true };
+        let (mut sim, script) = any_sim(&cfg);
+        // a vectored interrupt is pending and passes the priority gate
+        let (vect, prio) = match script.poll {
+            PollAns::Vect { vect, prio } => (vect, if prio > 7 { 7 } else { prio }),
+            _ => { nd::assume(false); (0, 0) }
+        };
+        let psr0 = sim.psr().get();
+        nd::assume(prio > ((psr0 >> 8) & 7) as u8);
+        let user0 = psr0 >> 15 == 1;
+        let pc0 = sim.pc;
+        let ssp0 = sim.verif_saved_sp();
+        let depth0 = sim.frame_stack.len();
+        let mut regs0 = [lc3_ensemble::sim::mem::Word::new_init(0); 8];
+        let mut j = 0;
+        while j < 8 {
+            regs0[j] = sim.reg_file[REGS[j]];
+            j += 1;
+        }
+        // the supervisor stack the entry will push on (OS-owned: not in the I/O page)
+        let sp = if user0 { ssp0.get() } else { regs0[6].get() };
+        let (s1, s2) = (sp.wrapping_sub(1), sp.wrapping_sub(2));
+        nd::assume(s1 < IO_START && s2 < IO_START);
+        let k: u16 = nd::any();
+        let before_k = pin_mem(&mut sim, k);
+        let vec_addr = 0x100 + vect as u16;
+        // ... and does not overlap the interrupt vector table entry that is about to be read
+        nd::assume(s1 != vec_addr && s2 != vec_addr);
+        let h = pin_mem(&mut sim, vec_addr).get();
+        nd::assume(h < IO_START);
+        // step 1: interrupt entry
+        let r1 = sim.step_in();
+        assert!(r1.is_ok(), "interrupt entry failed");
+        assert!(sim.pc == h && sim.psr().get() >> 15 == 0, "interrupt did not enter its handler in supervisor mode");
+        // hypothesis: the handler (here: its first instruction) returns with RTI
+        nd::assume(sim.mem[h].get() == 0x8000);
+        // step 2: RTI (the same request is still pending but no longer exceeds the priority)
+        let r2 = sim.step_in();
+        assert!(r2.is_ok(), "RTI from the handler failed");
+        // the stack pointers go through `- 2` / `+ 2`: their VALUE is restored (their initialisation
+        // mask is strict-mode bookkeeping and collapses for a partially initialised pointer)
+        let mut j = 0;
+        while j < 8 {
+            if j == 6 {
+                assert!(sim.reg_file[REGS[j]].get() == regs0[j].get(), "R6 not restored after interrupt + RTI");
+            } else {
+                assert!(sim.reg_file[REGS[j]] == regs0[j], "register not restored after interrupt + RTI");
+            }
+            j += 1;
+        }
+        assert!(sim.pc == pc0, "PC not restored after interrupt + RTI");
+        assert!(sim.psr().get() == psr0, "PSR (condition codes, privilege, priority) not restored after interrupt + RTI");
+        assert!(sim.verif_saved_sp().get() == ssp0.get(), "saved stack pointer not restored after interrupt + RTI");
+        assert!(sim.frame_stack.len() == depth0, "frame depth not restored after interrupt + RTI");
+        if k != s1 && k != s2 {
+            assert!(sim.mem[k] == before_k, "interrupt + RTI changed memory outside the two supervisor stack slots");
+        }
+        crate::nd_cover!(user0, "interrupted in user mode");
+        crate::nd_cover!(!user0, "nested: interrupted in supervisor mode");
+        assert_mem_ok();
+        std::mem::forget(r1);
+        finish(sim, r2);
+    }
+    crate::kstep_harnesses! {
+        c10_bracket = body();
+    }
+}
